@@ -18,6 +18,7 @@ void console_hwinit(console_t *c) { (void)c; }
  * term[i]: 1 if a NUL follows inside the buffer; arg[i]: the string (bounded copy).
  * Returns #yields (bits 0-3) | scribble flag (bit 4) | first byte (bits 8-15) | byte count (bits 16-23). */
 extern int hc_capture(int cmd, int argc, const int *off, const int *term, const char (*arg)[81]);
+extern void hc_complete(int cmd);
 
 #define MAXCMD 40
 static console_t *con;
@@ -63,6 +64,7 @@ static pt_state_t capture_cmd(console_t *c)
 		remaining--;
 		PT_YIELD();
 	}
+	hc_complete((int)(c->cmd - cmds)); /* the command has been resumed after every yield and now exits */
 	PT_END();
 }
 
